@@ -343,6 +343,7 @@ def _child(impls, sfd, kind):
 
 def serve(argv):
     stage_path, kind, errlog, status_path = argv[:4]
+    parent_pid = os.getppid()
     here = os.path.dirname(os.path.abspath(__file__))
     sys.path[:] = [p for p in sys.path if os.path.abspath(p or ".") != here]
     fd = os.open(errlog, os.O_WRONLY | os.O_APPEND | os.O_CREAT, 0o644)
@@ -435,6 +436,9 @@ def serve(argv):
                     os.unlink(f)
                 except OSError:
                     pass
+            import shutil
+            shutil.rmtree(os.path.join(os.path.dirname(errlog), "so.%s.%d" % (kind, parent_pid)),
+                          ignore_errors=True)
             try:
                 os.rmdir(os.path.dirname(errlog))
             except OSError:
